@@ -194,6 +194,7 @@ structure HeadPts where
   head  : Head
   midAt : Nat
   after : Bool
+  acceptAfter : Bool  -- with `after`: the observed key is accepted, then Observation() is called again
 
 def headOf (j : Json) : R HeadPts := do
   let block ← strF j "block"
@@ -203,7 +204,8 @@ def headOf (j : Json) : R HeadPts := do
   let results ← listF headResOf j "results"
   let midAt ← asNat (fieldD j "midAt" (.num 0))
   let aft ← asBool (fieldD j "after" (.bool false))
-  pure ⟨⟨strBytes block, active, srcErr, runErr, results⟩, midAt, aft⟩
+  let acc ← asBool (fieldD j "acceptAfter" (.bool false))
+  pure ⟨⟨strBytes block, active, srcErr, runErr, results⟩, midAt, aft, acc⟩
 
 /-- verdict on one Observation() call -/
 structure PointVerdict where
@@ -218,7 +220,11 @@ def handlePoint (hps : List HeadPts) (coordJ pt : Json) : R PointVerdict := do
   let heads := hps.map (·.head)
   let n ← natF pt "n"
   let phase ← strF pt "phase"
-  let coord ← coordOf coordJ pt
+  let coord0 ← coordOf coordJ pt
+  -- keys the harness accepted (as a finalized report would) before this call: in flight from then on
+  let dynKeys := (← listOf asStr (fieldD pt "accepted" .null)).map strBytes
+  let dynIds := dynKeys.filterMap fun k => (splitKey k).map (·.2)
+  let coord : Coord := { coord0 with pendIds := coord0.pendIds ++ dynIds, accepted := coord0.accepted ++ dynKeys }
   let out ← hexBytes (← strF pt "out")
   let outErr ← strF pt "outErr"
   let dec ← decOf? (← field pt "outDec")
@@ -250,6 +256,7 @@ def handlePoint (hps : List HeadPts) (coordJ pt : Json) : R PointVerdict := do
     (if inDomain st then ["in-domain"] else ["out-of-domain"]) ++
     (if st.ids.isEmpty then ["nothing-staged"] else []) ++
     (if decide (allowed.length < st.ids.length) then ["in-flight-filtered"] else []) ++
+    (if st.ids.any (fun x => dynIds.contains (idBytes x)) then ["observed-id-accepted-same-head"] else []) ++
     (if decide (allowed.length > 1) then ["several-candidates"] else []) ++
     (if st.ids.any (·.isNone) then ["nil-identifier-staged"] else []) ++
     (if out.isEmpty then ["empty-observation-bytes"] else []) ++
@@ -284,7 +291,8 @@ def handleObs (input impl : Json) : R Reply := do
   let expected : List (Nat × String) :=
     (hps.zipIdx.flatMap fun (h, i) =>
       (if h.midAt ≥ 1 && headSampled h.head && decide (h.midAt ≤ h.head.results.length) then [(i, "mid")] else []) ++
-      (if h.after then [(i + 1, "after")] else [])) ++ [(heads.length, "final")]
+      (if h.after then [(i + 1, "after")] else []) ++
+      (if h.after && h.acceptAfter then [(i + 1, "after2")] else [])) ++ [(heads.length, "final")]
   let got ← pts.mapM fun pt => do pure ((← natF pt "n"), (← strF pt "phase"))
   let pointsOk := decide (expected = got)
   let coord ← coordOf coordJ (Json.mkObj [])
@@ -305,10 +313,21 @@ def handleObs (input impl : Json) : R Reply := do
          nontrivial := !st.ids.isEmpty || vs.any (fun v => v.tags.contains "mid:next-head-partly-staged"),
          tags := tags }
 
+/-- The model is evaluated with the configuration of the instance under test (`input.cfg`), whatever
+the same factory was asked for before (`input.prior`): limits carried over from an earlier instance
+show up as disagreement and as a violated batch / gas clause. -/
 def handle (input impl : Json) : R Reply := do
-  match ← strF input "mode" with
-  | "report" => handleReport input impl
-  | "obs" => handleObs input impl
-  | m => throw s!"unknown mode {m}"
+  let prior ← asList (fieldD input "prior" .null)
+  let setup := (fieldD impl "setup" (.str "")).getStr?.toOption.getD ""
+  if setup.startsWith "factory:" then
+    -- the factory did not produce the instance under test (every generated configuration is valid and
+    -- the model builds one): nothing to evaluate the property on, reported as a disagreement
+    return { agree := false, specModel := true, specImpl := true, nontrivial := false,
+             diff := s!"harness: {setup}", tags := ["no-instance"] ++ (if prior.isEmpty then [] else ["factory-reused"]) }
+  let rep ← match ← strF input "mode" with
+    | "report" => handleReport input impl
+    | "obs" => handleObs input impl
+    | m => throw s!"unknown mode {m}"
+  pure { rep with tags := rep.tags ++ (if prior.isEmpty then [] else ["factory-reused"]) }
 
 end AutoVerif.C16
